@@ -112,6 +112,33 @@ seed("C14-1", "C14", "array fast path of diff_ulp subtracts ordinals in the same
 seed("C14-2", "C14", "flush remap of y tests ix instead of iy",
      "flush_subnormals=True with a zero or subnormal second argument", "C14 quick: flush-symmetry, flush-consistency")
 
+seed("C02-1", "C02", "real_acosh rewritten with one square root: log1p((x-1)*(1+sqrt((x+1)/(x-1))))",
+     "exactly x == 1.0 (0 * inf): NaN instead of 0, both dtypes", "C02 quick: real-nan-domain:acosh (neighbourhoods of 1)")
+seed("C02-2", "C02", "real_acosh uses log(x + sqrt(x-1)*sqrt(x+1)) instead of the log1p form",
+     "x in (1, ~1.03): hundreds of ULP just above 1", "C02 quick: rate-over-3ulp:acosh / real-ulp-bound:acosh")
+seed("C16-1", "C16", "fast_exponent_by_squaring: odd exponent returns r2*r instead of r2*x",
+     "schemes whose split sizes hit exponents 5, 7, 9-11, 13-15 ...: balanced_dac from degree 10, canonical from degree 5, default only above 500 coefficients",
+     "C16 quick: poly.fast_polynomial-value")
+seed("C16-2", "C16", "divmod early exit len(P) <= len(D)", "deg P == deg D", "C16 quick: divmod-degree")
+seed("C16-3", "C16", "divmod(reverse=True) returns the remainder un-reversed", "reverse=True, divisor degree >= 2, non-palindromic remainder", "C16 quick: divmod-identity")
+seed("C17-1", "C17", "one wrong digit in the ln2inv constant used to choose k (relative error 6.9e-5)",
+     "float64, |x| > 500, x/ln2 between 0.05 and 0.07 below a rounding tie: |r+c| up to 0.571 ln2",
+     "C17 quick: exp:remainder-bound (tie-band workload)",
+     first_result="missed (HELD): near-tie inputs were +-8 ulps around (k+1/2) ln2, where a wrong k still leaves |r| ~ 0.5 ln2 < 0.55 ln2; random bits rarely fall in the failing band",
+     strengthened="a band workload x = (k + 1/2 + d) c with d uniform in +-0.12 and log-uniform down to 2^-40, half of the k from the top 30 % of the domain, for ln2 and pi/2")
+seed("C17-2", "C17", "trig shortcut for small |x| lost the factor two on the negative side", "-pi/2 < x <= -pi/4", "C17 quick: trig:remainder-bound, trig:reconstruction (float16 exhaustive)")
+seed("C18-1", "C18", "rounding mode OR-ed into MXCSR without clearing the previous mode bits", "a non-nearest rounding mode active on entry (nested contexts)",
+     "C18 quick: enter-changes-unrequested-bits / requested-mode-not-established sites of the history monitor")
+seed("C18-2", "C18", "a context object keeps the MXCSR snapshot of its first entry", "one context object (or decorated function) used twice under different ambient control bits",
+     "C18 quick: exit-does-not-restore* (pre-created and re-used context objects are part of the history trees)")
+seed("C19-1", "C19", "vectorised offset arithmetic in uint32 for float32 when more than 1024 samples are requested with user bounds",
+     "float32, user bounds, size > 65536", "C19 quick: real_samples-not-ulp-uniform+upper-bound-missing (task_large: 100000 and 300000 samples)")
+seed("C19-2", "C19", "complex_pair_samples passes max_imag_values[0] to the second operand",
+     "per-operand tuple bounds for the imaginary parts that differ between the operands",
+     "C19 quick: complex_pair_samples-product, product-exception",
+     first_result="missed (HELD): the product workload passed one scalar bound for every dimension",
+     strengthened="per-dimension bounds passed as tuples (None members included), ranges across zero, complex pair with four independent bounds")
+
 for id_, meta in T.items():
     d = os.path.join(ROOT, id_)
     if not os.path.isdir(d):
